@@ -162,10 +162,22 @@ pub fn check(case: &Case, obs: &Obs) -> CheckResult {
     macro_rules! arr {
         ($($n:literal),*) => {
             match case.cap {
+                #[cfg(feature = "full")]
                 0 => {
                     obs.label("Vec<Error>");
                     let mut q: Vec<Error> = Vec::new();
                     run_ops(&mut q, None, case, obs)
+                }
+                // the minimal configuration has no growable queue (scpi without alloc): the same operations on a
+                // fixed queue larger than any generated history
+                #[cfg(not(feature = "full"))]
+                0 => {
+                    obs.label("ArrayVec<Error,4096> (no growable queue in this configuration)");
+                    if case.ops.len() > 4000 {
+                        return Ok(());
+                    }
+                    let mut q: Box<ArrayVec<Error, 4096>> = Box::new(ArrayVec::new());
+                    run_ops(&mut *q, Some(4096), case, obs)
                 }
                 $($n => {
                     obs.label(concat!("ArrayVec<Error,", $n, ">"));
